@@ -147,4 +147,29 @@ theorem roundCfg_eq (cfg : Cfg) (hnp : NoPinata cfg.mods) (hnd : (cfg.mods.map (
     rw [ih]
     exact restartCfg_eq cfg _ hnp hnd
 
+/-- whatever a round does, Pinatas included: a declared module is still declared (under its name) in `module_cfg` -/
+theorem startup_keeps_declared (cfg : Cfg) (fuel : Nat) :
+    ∀ c ∈ cfg.mods, ∃ k ∈ (startup cfg fuel).known, k.name = c.name := by
+  have kn : KN cfg.mods (created cfg fuel) :=
+    kn_createLoop cfg.mods cfg.dyn fuel fuel cfg.mods _ (fun x hx => ⟨x, hx, rfl⟩)
+  have hk : (startup cfg fuel).known = (created cfg fuel).known := by
+    rw [startup_eq]
+    split
+    · exact (ext_created_core cfg fuel).known
+    · exact (ext_created_core cfg fuel).known
+  intro c hc
+  obtain ⟨k, h1, h2⟩ := kn c hc
+  exact ⟨k, by rw [hk]; exact h1, h2⟩
+
+theorem roundCfg_keeps_declared (cfg : Cfg) : ∀ k, ∀ c ∈ cfg.mods, ∃ d ∈ (roundCfg cfg k).mods, d.name = c.name
+  | 0 => fun c hc => ⟨c, hc, rfl⟩
+  | k + 1 => fun c hc => by
+    obtain ⟨d, hd, hn⟩ := roundCfg_keeps_declared cfg k c hc
+    obtain ⟨e, he, hen⟩ := startup_keeps_declared (roundCfg cfg k) (fuelFor (roundCfg cfg k)) d hd
+    exact ⟨e, he, hen.trans hn⟩
+
+theorem roundCfg_dyn (cfg : Cfg) : ∀ k, (roundCfg cfg k).dyn = cfg.dyn
+  | 0 => rfl
+  | k + 1 => by simp only [roundCfg, restartCfg]; exact roundCfg_dyn cfg k
+
 end Frappy.Proofs.LifecycleRestart
